@@ -121,8 +121,23 @@ func C03(ctx *core.Ctx) {
 						continue
 					}
 					in := c.Instr.(ssa.Instruction)
-					okName := nameTest != nil && nameTest.Block().Succs[1].Dominates(in.Block())
-					okType := replyTest != nil && (replyTest.Block().Succs[1] == in.Block() || replyTest.Block().Succs[1].Dominates(in.Block()))
+					_, _ = nameTest, replyTest
+					var nameV, typeV ssa.Value
+					if beg != nil {
+						for _, u := range *beg.(ssa.Value).Referrers() {
+							if e, isE := u.(*ssa.Extract); isE {
+								switch e.Index {
+								case 0:
+									nameV = e
+								case 1:
+									typeV = e
+								}
+							}
+						}
+					}
+					okName := nameV != nil && methodParam != nil && dominatedByEquality(in, nameV, methodParam, nil)
+					two := int64(2) // thrift.REPLY
+					okType := typeV != nil && dominatedByEquality(in, typeV, nil, &two)
 					ctx.Check(okName, "C03.R4", ssax.Name(pr)+" › result is read only for a reply to the same method", r.IPos(in), "dominated by the oMethod == method edge", "a reply labelled with a different method name is decoded as this call's result")
 					ctx.Check(okType, "C03.R4", ssax.Name(pr)+" › result is read only from a REPLY message", r.IPos(in), "dominated by the mTypeID == REPLY edge", "an EXCEPTION or other message type is decoded as the result struct")
 					// followed by ReadMessageEnd
@@ -317,4 +332,55 @@ func otherOperand(bo *ssa.BinOp, p ssa.Value) ssa.Value {
 		return bo.Y
 	}
 	return bo.X
+}
+
+// dominatedByEquality: instruction in is reached only through an edge on which
+// a == b (b a value) or a == *k (k a constant) was established, whatever the
+// syntactic form of the test (==, !=, switch case).
+func dominatedByEquality(in ssa.Instruction, a ssa.Value, b ssa.Value, k *int64) bool {
+	for cur := in.Block(); cur != nil; cur = cur.Idom() {
+		if len(cur.Preds) != 1 {
+			continue
+		}
+		p := cur.Preds[0]
+		iff, ok := p.Instrs[len(p.Instrs)-1].(*ssa.If)
+		if !ok {
+			continue
+		}
+		onTrue := p.Succs[0] == cur
+		if p.Succs[0] == p.Succs[1] {
+			continue
+		}
+		cond := iff.Cond
+		for {
+			u, isU := cond.(*ssa.UnOp)
+			if !isU || u.Op != token.NOT {
+				break
+			}
+			cond, onTrue = u.X, !onTrue
+		}
+		bo, ok := cond.(*ssa.BinOp)
+		if !ok || (bo.Op != token.EQL && bo.Op != token.NEQ) {
+			continue
+		}
+		match := func(x, y ssa.Value) bool {
+			if ssax.Strip(x) != ssax.Strip(a) {
+				return false
+			}
+			if b != nil {
+				return ssax.Strip(y) == ssax.Strip(b)
+			}
+			if c, isC := ssax.ConstInt(y); isC && k != nil {
+				return c == *k
+			}
+			return false
+		}
+		if !(match(bo.X, bo.Y) || match(bo.Y, bo.X)) {
+			continue
+		}
+		if (bo.Op == token.EQL) == onTrue {
+			return true
+		}
+	}
+	return false
 }
